@@ -129,6 +129,15 @@ func RunGopher(src string, o *GOpts) (out *GOutcome) {
 		out.Snaps = append(out.Snaps, Snap{Label: label, Thread: fmt.Sprintf("%p", L), S: s})
 		return 0
 	}))
+	L.SetGlobal("emitline", L.NewFunction(func(L *lua.LState) int {
+		n := L.GetTop()
+		vals := make([]lua.LValue, n)
+		for i := 1; i <= n; i++ {
+			vals[i-1] = L.Get(i)
+		}
+		out.Trace = append(out.Trace, GEvent{"line", vals})
+		return 0
+	}))
 	if o != nil && o.Setup != nil {
 		o.Setup(L, out)
 	}
@@ -232,6 +241,8 @@ func ShowR(v luaref.Value) string {
 		return fmt.Sprintf("%v(%016x)", x, math.Float64bits(x))
 	case string:
 		return strconv.Quote(x)
+	case *luaref.ONum:
+		return fmt.Sprintf("<line %d..%d>", x.Lo, x.Hi)
 	case *luaref.OStr:
 		if x.Kind == "addr" {
 			return "<" + x.Prefix + "ADDR>"
@@ -296,6 +307,11 @@ func (d *ids) match(rv luaref.Value, gv lua.LValue) error {
 		s, ok := gv.(lua.LString)
 		if !ok || string(s) != x {
 			return mism()
+		}
+	case *luaref.ONum:
+		n, ok := gv.(lua.LNumber)
+		if !ok || float64(n) != math.Floor(float64(n)) || int(n) < x.Lo || int(n) > x.Hi {
+			return fmt.Errorf("reference: a line in %d..%d, gopher-lua %s", x.Lo, x.Hi, ShowG(gv))
 		}
 	case *luaref.OStr:
 		s, ok := gv.(lua.LString)
